@@ -53,10 +53,10 @@ impl Prop for C01 {
     fn profiles(tier: Tier) -> Vec<Profile> {
         match tier {
             Tier::Quick => vec![
-                prof("const", 16_000),
-                prof("wild", 8_000),
-                prof("counters", 8_000),
-                prof("signals", 8_000),
+                prof("const", 64_000),
+                prof("wild", 32_000),
+                prof("counters", 32_000),
+                prof("signals", 32_000),
             ],
             Tier::Thorough => vec![
                 prof("const", 800_000),
@@ -148,6 +148,29 @@ impl Prop for C01 {
         if any_action && (unknown_id || backwards || internal || saturated) {
             obs.nontrivial();
         }
+        // the same history on the default clock type (std::time::Instant), when every
+        // virtual time fits: totality only (its one float division rounds differently)
+        let mut t = case.start;
+        let mut fits = t < (1u64 << 50);
+        for c in &case.calls {
+            t = c.clock.apply(t);
+            fits &= t < (1u64 << 50);
+        }
+        if fits {
+            let base = std::time::Instant::now();
+            let at = |us: u64| base + std::time::Duration::from_micros(us);
+            let machines = build_machines(&case.machines).expect("validated above");
+            let rng = crate::rng::ScriptRng::new(&case.words, case.seed).with_budget(budget);
+            let mut fw = maybenot::Framework::new(machines, case.max_padding_frac.0, case.max_blocking_frac.0, at(case.start), rng)
+                .map_err(|e| Failure { signature: "framework-new-rejects-validated-machines".into(), detail: e.to_string() })?;
+            let mut t = case.start;
+            for c in &case.calls {
+                t = c.clock.apply(t);
+                let evs: Vec<_> = c.events.iter().map(|e| e.to_trigger()).collect();
+                let _ = fw.trigger_events(&evs, at(t)).count();
+            }
+            obs.hit("std_instant_clock");
+        }
         Ok(())
     }
 
@@ -159,6 +182,7 @@ impl Prop for C01 {
             "internal_event",
             "saturated_counter",
             "zero_machines",
+            "std_instant_clock",
         ]
     }
 
